@@ -1125,6 +1125,9 @@ def call_ext(interp, dotted: str, args: List[V], kwargs: Dict[str, V], node, cc)
                 return g
             return Term("array", [v])
         if isinstance(v, (Term, Num)):
+            dt = kwargs.get("dtype")
+            if isinstance(v, Term) and isinstance(dt, ExtV) and dt.dotted in ("builtins.float", "numpy.float64", "numpy.double"):
+                return Term("as_float", [v])        # value-preserving; remembered for dtype-sensitive consumers (hashing)
             return v
         return Term("array", [v])
     if d == "numpy.tile":
